@@ -83,6 +83,8 @@ package cache
 //@ func (*cacheHandler).list
 //@   props C15 C19
 //@   requires [wired] h != nil && ctx != nil && (forall i int :: 0 <= i && i < len(opts) ==> opts[i] != nil)
+//@   at Unlock #1
+//@     assert [snapshot-taken-under-lock] len(resources) == 0 || fresh(resources)
 //@   at Map #1
 //@     assume_result [maps-deepcopy] forall i int :: 0 <= i && i < len(result) ==> result[i] != nil && (fresh(mdOf(result[i])) || typeis(result[i], "*resource.Tombstone"))
 //@   ensures [items-are-copies] result1 == nil ==> (forall i int :: 0 <= i && i < len(result0.Items) ==>
@@ -109,6 +111,7 @@ package cache
 //@     assert [cancelled-at-once-when-absent] !found
 //@   at cancel #2
 //@     assert [cancelled-at-once-when-tearing-down] found && mdOf(h.resources[idx]).phase == 1
+//@   ensures [registered-waiter-is-kept] acq(in(id, h.teardownWaiters)) ==> in(id, h.teardownWaiters) && h.teardownWaiters[id] == acq(h.teardownWaiters[id])
 //@ func (*cacheHandler).contextWithTeardown$1
 //@   props C15
 //@   requires r != nil
